@@ -408,7 +408,7 @@ def sig_c02(f):
 
 
 def check_generic(prop, tier, cfgs, n_quick, n_thorough, sigfun, stages, level="exploration", rule="", nontrivial=None,
-                  extra_cov=None, min_eval=8):
+                  extra_cov=None, min_eval=8, cell_prefix=None, eval_key=None):
     v = Verdict(prop, tier, level)
     n = n_quick if tier == "quick" else n_thorough
     root = common.scratch(prop.lower())
@@ -477,12 +477,21 @@ def check_generic(prop, tier, cfgs, n_quick, n_thorough, sigfun, stages, level="
             "inconclusive_programs": len(incon), "inconclusive_reasons": sorted(set(r[:160] for _, r in incon))[:5],
             "model_features_seen": feature_counts, "finding_rules_seen": rule_counts, "samples": samples,
         }
-        cells = {k.split(":", 1)[1]: v for k, v in stats.items() if k.startswith("restr_cell:") or k.startswith("cell:")}
-        stats = {k: v for k, v in stats.items() if not (k.startswith("restr_cell:") or k.startswith("cell:"))}
+        prefixes = ("restr_cell:", "cell:", "opcell:", "scencell:")
+        cells = {k: v for k, v in stats.items() if k.startswith(prefixes)}
+        stats = {k: v for k, v in stats.items() if not k.startswith(prefixes)}
         cov.update(stats)
-        if cells:
-            cov["cells_observed"] = len(cells)
-            cov["cells"] = cells
+        if cell_prefix:
+            mine = {k.split(":", 1)[1]: v for k, v in cells.items() if k.startswith(cell_prefix)}
+            cov["cells_observed"] = len(mine)
+            cov["cells"] = mine
+            # distinct cases = distinct cells of the property's mechanism that were actually exercised
+            cov["distinct_programs"] = cov["distinct_nontrivial"]
+            cov["distinct_nontrivial"] = len(mine)
+        if eval_key:
+            cov["programs_evaluated"] = cov["evaluations"]
+            cov["evaluations"] = int(cov.get(eval_key, 0))
+            cov["evaluations_unit"] = eval_key
         if excl_classes:
             cov["exclusion_classes"] = excl_classes
         if extra_cov:
@@ -533,10 +542,10 @@ WSDL_RULES = {
            "element, 5 truncations} x transport faults {closed before headers, closed after the request, body shorter than Content-Length} x "
            "credentials {absent, ascii, with ':' and empty password, non-ASCII}; plus 32 concurrent calls. The listener logs each request "
            "before replying; expected: one POST with the exact serialized envelope and the exact Basic header; a value iff 2xx and the body "
-           "is the envelope. Non-trivial = programs with >= 1 operation run",
+           "is the envelope. Distinct = (scenario, one-/two-way, header count) cells observed",
     "C18": "for every operation of generated clients the driver contains assert_send(&future) for the service method and the free-standing "
            "function, assert_send_sync::<Envelope>() for request and response types, and runs each call through tokio::spawn on a 2-worker "
-           "multi-thread runtime; rustc's E0277 on those lines and non-completing spawns are violations",
+           "multi-thread runtime; rustc's E0277 on those lines and non-completing spawns are violations. Distinct = operation-shape cells",
 }
 
 
@@ -719,7 +728,9 @@ def run(prop, tier):
         nq, nt = {"C05": (16, 400), "C16": (8, 120), "C18": (16, 400)}[prop]
         check_generic(prop, tier, cfgs, nq, nt, sigf, ["static", "probe", lambda p: engine_w.stage_wsdl(p, full_matrix=full)],
                       level="fault_enumeration" if prop == "C16" else "exploration", rule=WSDL_RULES[prop],
-                      nontrivial=lambda p: p.stats.get("operations_run", 0) > 0, min_eval=4)
+                      nontrivial=lambda p: p.stats.get("operations_run", 0) > 0, min_eval=4,
+                      cell_prefix="scencell:" if prop == "C16" else "opcell:",
+                      eval_key="calls_observed" if prop != "C18" else "operations_run")
     elif prop == "C07":
         from . import engine_w
         cfgs = pick(q, "restr")
@@ -729,8 +740,9 @@ def run(prop, tier):
             "envelopes (full/low-boundary/high-boundary/many) and one envelope per reachable (position, violated facet) with exactly one "
             "violating value (enumerated, capped at 40); for each the driver records check_restrictions(None) and runs the client call "
             "against the listener, which counts accepted connections. Reference: a sample fails iff it contains the violating value. "
-            "Non-trivial = programs with >= 1 violating sample; evidence lists the (part/position/depth/optional/repeated/facet/derivation) cells"),
-            nontrivial=lambda p: p.stats.get("restr_samples", 0) > p.stats.get("restr_valid_samples", 0), min_eval=4)
+            "Distinct = (part/position/depth/optional/repeated/facet/derivation) cells hit by a violating sample"),
+            nontrivial=lambda p: p.stats.get("restr_samples", 0) > p.stats.get("restr_valid_samples", 0), min_eval=4,
+            cell_prefix="restr_cell:", eval_key="restr_samples")
     elif prop == "C08":
         cfgs = pick(q, "ext", "ext-keywords")
         check_generic("C08", tier, cfgs, 24, 800, sig_c08, ["static", "probe", stage_runtime], rule=(
